@@ -416,7 +416,7 @@ def s_units_population(ctx):
         u.mismatches.append(dict(case=cases[i], note="a population member's evaluate differs from the model (or the member recorded another position than the one evaluated)"))
 
 
-POP_ITER = ["ParticleSwarmOptimizer", "SpiralOptimization", "DifferentialEvolutionOptimizer", "EvolutionStrategyOptimizer", "GeneticAlgorithmOptimizer", "ParallelTemperingOptimizer", "PatternSearch"]
+POP_ITER = ["ParticleSwarmOptimizer", "SpiralOptimization", "DifferentialEvolutionOptimizer", "EvolutionStrategyOptimizer", "GeneticAlgorithmOptimizer", "ParallelTemperingOptimizer", "PatternSearch", "DownhillSimplexOptimizer", "PowellsMethod", "DirectAlgorithm"]
 POP_HDR = ("Require Import Converter CoreOpt Pop.\n"
            "Definition pe := list_eqb Z.eqb.\n"
            "Definition it_ok (r : res (pos * tape * Z)) (p : pos) (n : option Z) : bool := match r with Ok (q, [], m) => pe q p && "
@@ -445,7 +445,7 @@ def s_units_pop_iterate(ctx):
     """every iteration step of ParticleSwarm / Spiral / DifferentialEvolution runs against theories/Pop.v: from the observed
     pre-state, the logged draws and the float vector recomputed by the harness (the model's oracle), the model must return
     the observed position, consume every draw and make the same number of constraint evaluations"""
-    u = ctx.unit("S:iterate (particle swarm, spiral, differential evolution, evolution strategy, genetic algorithm, parallel tempering, pattern search)", "S",
+    u = ctx.unit("S:iterate (particle swarm, spiral, differential evolution, evolution strategy, genetic algorithm, parallel tempering, pattern search, downhill simplex, Powell, DIRECT)", "S",
                  "every iteration step of real runs (populations 4-6, coupled constraints -- parity / band / half-space -- to "
                  "force the fallback paths, rand_rest_p up to 0.5, varied hyper-parameters): the model's pso_iterate / "
                  "spiral_iterate / de_iterate / es_iterate / ga_iterate (population order after the unstable argsort observed; GA's offspring queue before / after) with the logged draws and the harness-recomputed float vector (new velocity, spiral "
@@ -454,7 +454,7 @@ def s_units_pop_iterate(ctx):
     from props import c02
     rng = ctx.sub_rng("popit")
     lits, cases = [], []
-    n = 24 if ctx.quick else 180
+    n = 30 if ctx.quick else 200
     specs = c02.coupled_specs(ctx, 4 * n)
     specs = [sp_ for sp_ in specs if sp_["name"] in POP_ITER][:n]
     for spec in specs:
@@ -590,6 +590,48 @@ def s_units_pop_iterate(ctx):
                     prev = cur
                     prev_extra = st
                     continue
+                elif name == "DownhillSimplexOptimizer":
+                    # the float vector the step handed to conv2pos (captured) -> conv2pos -> constraint test -> move_climb fallback;
+                    # a step that emits a position without passing it through conv2pos has no such capture
+                    c2 = [e for e in caps if e[1] == "conv2pos"]
+                    if not c2:
+                        raise ValueError("the step emitted a position without calling conv2pos")
+                    vec = c2[0][3]["vector"]
+                    tape = []
+                    for e in draws:
+                        tape += draw_lit(e[0], e[1], e[3])
+                    call = "vec_iterate %s %s 3000 %s [%s]" % (sp, cl, clist(vec, xr_lit), "; ".join(tape))
+                elif name in ("PowellsMethod", "DirectAlgorithm"):
+                    # the candidate is the first position the step tests against the constraints (a point of Powell's inner line
+                    # search / the centre of a DIRECT sub-space): it must be in the box (checked in Coq) and is returned or repaired
+                    nic_ = [e for e in caps if e[1] == "not_in_constraint" and e[3].get("conv_id") == id(opt.conv)]
+                    if not nic_:
+                        raise ValueError("the step emitted a position without testing it against the constraints")
+                    vec = nic_[0][3]["vector"]
+                    if any(float(v) != int(v) for v in vec):
+                        raise ValueError("the tested candidate %r is not an integer position" % (vec,))
+                    cand = [int(v) for v in vec]
+                    restart = name == "PowellsMethod" and bool(draws) and draws[0][1] == "uniform" and float(opt.rand_rest_p) > draws[0][3]
+                    use = draws
+                    if name == "PowellsMethod" and not restart:
+                        # the draws of the inner 1-D hill climber (its construction, its init / iterate) happen before the candidate is
+                        # tested and are not part of this model: keep the decorator's uniform and everything after the first test
+                        i_nic = next(i for i, e in enumerate(r_it) if e[0] == "capture" and e[1] == "not_in_constraint" and e[3].get("conv_id") == id(opt.conv))
+                        use = draws[:1] + [e for e in r_it[i_nic:] if e[0] != "capture"]
+                    if name == "DirectAlgorithm":
+                        # sub-space bookkeeping (random.randint on ties of the biggest dimension) precedes the test and is not modelled
+                        i_nic = next(i for i, e in enumerate(r_it) if e[0] == "capture" and e[1] == "not_in_constraint" and e[3].get("conv_id") == id(opt.conv))
+                        use = [e for e in r_it[i_nic:] if e[0] != "capture"]
+                    tape = []
+                    for e in use:
+                        tape += draw_lit(e[0], e[1], e[3])
+                    if name == "PowellsMethod":
+                        rrp = dyadic(float(opt.rand_rest_p))
+                        call = "powell_iterate %s %s 3000 (%s, %s) %s [%s]" % (sp, cl, cz(rrp[0]), cz(rrp[1]), clist(cand), "; ".join(tape))
+                        if not restart:
+                            call = "(if in_box_b %s %s then %s else Err BadOracle)" % (sp, clist(cand), call)
+                    else:
+                        call = "(if in_box_b %s %s then cand_iterate %s %s 3000 %s [%s] else Err BadOracle)" % (sp, clist(cand), sp, cl, clist(cand), "; ".join(tape))
                 elif name == "ParallelTemperingOptimizer":
                     # iterate = the current system's (a simulated-annealing optimizer's) hill-climbing iterate
                     tape = []
